@@ -19,7 +19,7 @@ RULE = ('Noll indices 1..231 (quick) / 1..1326 (thorough) enumerated completely 
 ASSUMPTIONS = ['the sign of sine modes is not pinned by the property: +sin and -sin are both accepted (per mode)']
 PLAN = {'quick': {'gen': 8}, 'thorough': {'gen': 16, 'tests': 1, 'docs': 1}}
 REQUIRED_BUCKETS = ['index', 'value:normalized', 'value:unnormalized', 'gram:diag', 'gram:offdiag', 'coords:even', 'coords:odd',
-                    'coords:offcentre', 'support-only', 'coords:shared', 'basis', 'compose:normalized', 'compose:unnormalized']
+                    'coords:offcentre', 'support-only', 'coords:shared', 'basis', 'compose:normalized', 'compose:unnormalized', 'theta:undefined-for-m=0']
 REQUIRED_ANCHORS = ['probe:zernike_index', 'anchor:R', 'anchor:zernike', 'anchor:zernike_coordinates']
 REQUIRED_ORACLES = ['index=noll', 'index:bijective', 'mode=textbook', 'R(1)=1', 'gram=I', '|Z|<=1', 'rho=centroid-distance',
                     'origin=centroid', 'zero-outside', 'support-only']
@@ -117,8 +117,15 @@ def workload(ctx, lentil):
         mask = np.ones(shape) if rng.random() < 0.5 else (rng.random(shape) < 0.7).astype(float)
         desc = {'mode': j, 'shape': list(shape), 'normalize': normalize, 'pts': probe.fp_array(rho)[:8]}
         ctx.case(desc, ['value:normalized' if normalize else 'value:unnormalized'], nontrivial=j > 1)
+        theta_arg = theta
+        if _NOLL[j][1] == 0 and i % 2 == 0:
+            # rotationally symmetric modes are the radial polynomial alone: where the azimuth is undefined (NaN / inf, e.g. at
+            # the sample on the origin) they are still defined
+            theta_arg = theta.copy()
+            theta_arg.flat[int(rng.integers(0, theta.size))] = [np.nan, np.inf, -np.inf][i % 3]
+            ctx.bucket('theta:undefined-for-m=0')
         try:
-            got = lentil.zernike(mask, j, normalize=normalize, rho=rho, theta=theta)
+            got = lentil.zernike(mask, j, normalize=normalize, rho=gen.layout(rng, rho), theta=gen.layout(rng, theta_arg))
         except Exception as e:
             ctx.check(False, 'mode=textbook', f'mode|raises={type(e).__name__}', str(e), desc)
             continue
@@ -185,7 +192,8 @@ def workload(ctx, lentil):
         supplied = bool(rng.random() < 0.5)
         ctx.case({'basis': [int(x) for x in modes], 'shape': list(shape), 'supplied': supplied}, ['basis'])
         try:
-            kwb = dict(rho=rho_ref.copy(), theta=theta_ref.copy()) if supplied else {}
+            # caller-supplied coordinates in any memory layout (Fortran order, transposed / strided views): same values
+            kwb = dict(rho=gen.layout(rng, rho_ref.copy(), 0.7), theta=gen.layout(rng, theta_ref.copy(), 0.7)) if supplied else {}
             B = np.asarray(Z.zernike_basis(mask, modes, normalize=normalize, **kwb), float)
             Bv = np.asarray(Z.zernike_basis(mask, modes, vectorize=True, normalize=normalize, **kwb), float)
             ok = B.shape == (len(modes),) + tuple(shape) and Bv.shape == (len(modes), shape[0] * shape[1])
